@@ -31,7 +31,7 @@ def one_app(rng, tier, dist, opts=None):
     return app, ref
 
 def gen(rng, tier, dist):
-    n = 260 if tier == "quick" else 9000
+    n = 1500 if tier == "quick" else 20000
     out = []
     for c in range(n):
         opts = {"p_soft": 0.3 if rng.random() < 0.3 else 0.0}
